@@ -121,6 +121,8 @@ def parse_operand(s):
         return ("copy", parse_place(s[14:]))
     if s.startswith("const "):
         return ("const", s[6:].strip())
+    if "::" in s and re.fullmatch(r"[\w:<>, &'\[\]\(\){}@./\-]+", s) and not s.endswith(")"):
+        return ("fnitem", s)                           # a function item passed as a value (e.g. `.map(Foo::bar)`)
     raise Unsupported("operand: " + s)
 
 
@@ -131,6 +133,9 @@ UNOPS = {"Not", "Neg", "PtrMetadata"}
 
 def parse_rvalue(s):
     s = s.strip()
+    m = re.match(r"(?:const )?(.+?) as (?:for<[^>]*> )?(?:unsafe )?(?:extern \"\w+\" )?fn\(.*\(PointerCoercion\(ReifyFnPointer\(\w+\), \w+\)\)$", s)
+    if m and not s.startswith(("copy ", "move ")):
+        return ("fnptr", m.group(1).strip())          # a function item coerced to a function pointer
     if s.startswith(("copy ", "move ", "const ", "no_retag copy ")):
         m = re.match(r"(.*) as (.+?) \((\w+(?:\([^)]*\))?)\)$", s)
         if m and " as " in s and not s.startswith("const \""):
